@@ -2013,3 +2013,1117 @@ Proof.
     injection H as <- <-. eapply req_free_not_in; [|exact Hin]. apply req_free_app; [|eapply fail_running_rf; exact E2].
     destruct (h_unsol h); [eapply handle_unsol_rf; exact E1|injection E1 as <- <-; rf].
 Qed.
+
+Lemma on_event_requests cfg st ev st' o t d q fc objs :
+  on_event cfg st ev = (st', o) -> In (t, OTxReq d q fc objs) o ->
+  exists src frag v items, ev = ERx src frag v items /\
+    exists st1 o1, on_rx cfg st src frag v items = (st1, o1) /\ In (t, OTxReq d q fc objs) o1.
+Proof.
+  destruct ev as [src frag v items|ms|tok tk| | | | | |]; cbn [on_event]; intros H Hin.
+  - destruct (on_rx _ _ _ _ _ _) as [st1 o1] eqn:E. injection H as <- <-. apply in_app_or in Hin.
+    destruct Hin as [Hin|Hin]; [apply in_emit in Hin; discriminate|]. exists src, frag, v, items. split; [reflexivity|]. eauto.
+  - injection H as <- <-. destruct Hin.
+  - exfalso. unfold on_user in H. destruct (negb (s_assoc st)); [injection H as <- <-; apply in_emit in Hin; discriminate|].
+    destruct (negb (s_conn st)); [injection H as <- <-; apply in_emit in Hin; discriminate|].
+    destruct (_ <? _)%nat; injection H as <- <-; [destruct Hin|apply in_emit in Hin; discriminate].
+  - exfalso. destruct (s_conn st); [|injection H as <- <-; destruct Hin].
+    unfold stop_run in H. destruct (fail_running _ _ _) as [st1 o1] eqn:E1.
+    destruct (if s_assoc st1 then _ else _) as [st2 o2] eqn:E2. injection H as <- <-.
+    eapply req_free_not_in; [|exact Hin]. apply req_free_app; [eapply fail_running_rf; exact E1|].
+    apply req_free_app; [|rf]. destruct (s_assoc st1); [|injection E2 as <- <-; rf].
+    unfold reset_assoc in E2. injection E2 as <- <-. apply req_free_flat_map. intros; rf.
+  - exfalso. destruct (s_conn st); [injection H as <- <-; destruct Hin|].
+    unfold try_connect in H. destruct (_ && _); injection H as <- <-; [apply in_emit in Hin; discriminate|destruct Hin].
+  - exfalso. destruct (s_conn st); [|injection H as <- <-; destruct Hin].
+    unfold stop_run in H. destruct (fail_running _ _ _) as [st1 o1] eqn:E1.
+    destruct (if s_assoc st1 then _ else _) as [st2 o2] eqn:E2. injection H as <- <-.
+    eapply req_free_not_in; [|exact Hin]. apply req_free_app; [eapply fail_running_rf; exact E1|].
+    apply req_free_app; [|rf]. destruct (s_assoc st1); [|injection E2 as <- <-; rf].
+    unfold reset_assoc in E2. injection E2 as <- <-. apply req_free_flat_map. intros; rf.
+  - exfalso. unfold try_connect in H. destruct (_ && _); injection H as <- <-; [apply in_emit in Hin; discriminate|destruct Hin].
+  - exfalso. injection H as <- <-. eapply req_free_not_in; [|exact Hin]. apply req_free_flat_map. intros; rf.
+  - exfalso. destruct (if s_conn st then _ else _) as [st1 o1] eqn:E. injection H as <- <-.
+    eapply req_free_not_in; [|exact Hin]. apply req_free_app; [|rf].
+    destruct (s_conn st); [|injection E as <- <-; rf].
+    unfold stop_run in E. destruct (fail_running _ _ _) as [st2 o2] eqn:E1.
+    destruct (if s_assoc st2 then _ else _) as [st3 o3] eqn:E2. injection E as <- <-.
+    apply req_free_app; [eapply fail_running_rf; exact E1|].
+    apply req_free_app; [|rf]. destruct (s_assoc st2); [|injection E2 as <- <-; rf].
+    unfold reset_assoc in E2. injection E2 as <- <-. apply req_free_flat_map. intros; rf.
+Qed.
+
+(* C16.2 operate_only_after_faithful_select.  Whenever an OPERATE request (function code 4) is
+   written, either it is the first request of a generic empty-response task the user submitted with
+   that function code (announced by its task_start in the same step), or the step received - from
+   the addressed outstation, with the SELECT's sequence number, FIR and FIN, no IIN2 rejection - a
+   response whose objects are a faithful echo of the SELECT's objects; the OPERATE carries the
+   same object octets as the SELECT on the wire and the next sequence number. *)
+Theorem operate_only_after_faithful_select : forall cfg evs k o t d q' objs',
+  nth_error (run cfg evs) (S k) = Some o -> In (t, OTxReq d q' 4 objs') o ->
+  In (t, OInfoStart (TEmpty 4) 4 q') o \/
+  exists src frag items h objs hs q,
+    nth_error evs k = Some (ERx src frag VOk items) /\ parse_response frag = PResponse h objs /\
+    h_unsol h = false /\ src = c_addr cfg /\ c_seq (h_ctrl h) = q /\
+    c_fir (h_ctrl h) = true /\ c_fin (h_ctrl h) = true /\ iin2_bad (h_iin2 h) = false /\
+    faithful_echo hs objs /\
+    last_request (hist cfg evs k) = Some (mk_req q 3 (encode_phs hs) 0) /\
+    objs' = encode_phs hs /\ q' = seq_next q /\ d = c_addr cfg.
+Proof.
+  intros cfg evs k o t d q' objs' Hn Hin.
+  destruct (run_nth _ _ _ _ Hn) as (ev & Hev & ->). fold (state_at cfg evs k) in *.
+  set (st := state_at cfg evs k) in *.
+  unfold mstep in Hin |- *. destruct (s_stopped st) eqn:Hs.
+  { cbn [snd] in Hin. apply in_app_or in Hin. destruct Hin as [Hin|Hin]; apply in_emit in Hin; discriminate. }
+  destruct (on_event cfg st ev) as [st0 o0] eqn:E0. unfold then_pump, run_pump in Hin |- *.
+  destruct (pump _ cfg st0) as [st1 o1] eqn:E1. destruct (advance _ cfg st1 _) as [st2 o2] eqn:E2.
+  cbn [snd] in Hin |- *.
+  apply in_app_or in Hin. destruct Hin as [Hin|Hin]; [apply in_emit in Hin; discriminate|].
+  rewrite <- app_assoc in Hin. apply in_app_or in Hin. destruct Hin as [Hin|Hin].
+  - (* written by the handler of the event itself *)
+    right. destruct (on_event_requests _ _ _ _ _ _ _ _ _ _ E0 Hin) as (src & frag & v & items & -> & st3 & o3 & E3 & Hin3).
+    destruct (on_rx_requests _ _ _ _ _ _ _ _ _ _ _ _ _ E3 Hin3)
+      as (tok & hs & q & dd & sd & h & objs & Hr & Hc & Hp & Hu & Ha & -> & Hcmp & _ & -> & -> & ->).
+    destruct (accepted_answer_inv _ _ _ _ Ha) as (Hsrc & Hi & Hcase).
+    destruct Hcase as [(kk & q0 & d0 & sd0 & Hr' & Hq & Hfir & Hfin)|(kk & q0 & f & d0 & sd0 & Hr' & _)];
+      rewrite Hr in Hr'; [|discriminate]. injection Hr' as <- <- <- <-.
+    pose proof (run_tracks cfg evs k (nth_error_le _ _ _ Hev)) as Ht. fold (state_at cfg evs k) in Ht. fold st in Ht.
+    unfold tracks in Ht. rewrite Hr in Ht. destruct Ht as [(ro & Hl & Hok) Hseq]. cbn [nr_objs_ok] in Hok. subst ro.
+    exists src, frag, items, h, objs, hs, q. repeat split; try assumption.
+    apply compare_ok_faithful. exact Hcmp.
+  - (* written by a task that was started afterwards *)
+    left. assert (Hex : explained (o1 ++ o2)).
+    { apply explained_app; [eapply pump_explained; eauto|eapply advance_explained; eauto]. }
+    specialize (Hex _ _ _ _ Hin). apply in_or_app. right. rewrite <- app_assoc. apply in_or_app. right. exact Hex.
+Qed.
+
+(* what the failure of a task leaves alone *)
+Definition frame (st st' : mstate) : Prop :=
+  s_now st' = s_now st /\ s_conn st' = s_conn st /\ s_enabled st' = s_enabled st /\ s_linkup st' = s_linkup st /\
+  s_stopped st' = s_stopped st /\ s_assoc st' = s_assoc st /\ s_queue st' = s_queue st /\ s_seq st' = s_seq st.
+
+Lemma frame_refl st : frame st st. Proof. repeat split. Qed.
+Lemma frame_trans a b c : frame a b -> frame b c -> frame a c.
+Proof. unfold frame. intuition congruence. Qed.
+
+Lemma auto_failure_frame cfg st a : frame st (auto_failure cfg st a).
+Proof. destruct a; repeat split. Qed.
+Lemma auto_response_frame cfg st a i : frame st (auto_response cfg st a i).
+Proof. unfold auto_response. destruct a; try destruct (iin1_restart i); repeat split. Qed.
+
+Lemma nr_error_frame cfg st k e st' o : nr_error cfg st k e = (st', o) -> frame st st'.
+Proof.
+  unfold nr_error. destruct k as [t ph hs|t|t fc|t cold|a]; intros H; try (injection H as <- _; apply frame_refl).
+  destruct (s_assoc st); [|injection H as <- _; apply frame_refl].
+  destruct e; injection H as <- _; try apply auto_failure_frame. apply auto_response_frame.
+Qed.
+Lemma rd_error_frame cfg st k e st' o : rd_error cfg st k e = (st', o) -> frame st st'.
+Proof.
+  unfold rd_error. destruct k; intros H; [injection H as <- _; apply frame_refl|].
+  destruct (s_assoc st); injection H as <- _; repeat split.
+Qed.
+Lemma fail_running_frame cfg st e st' o : fail_running cfg st e = (st', o) -> frame st st'.
+Proof.
+  unfold fail_running. destruct (s_run st); intros H.
+  - injection H as <- _; apply frame_refl.
+  - destruct (nr_error _ _ _ _) as [st1 o1] eqn:E. injection H as <- _. apply nr_error_frame in E.
+    eapply frame_trans; [exact E|repeat split].
+  - destruct (rd_error _ _ _ _) as [st1 o1] eqn:E. injection H as <- _. apply rd_error_frame in E.
+    eapply frame_trans; [exact E|repeat split].
+  - injection H as <- _; repeat split.
+Qed.
+
+(* ---------------------------------------------------------------------------------------- *)
+(* C16.3 mismatch_is_error: every way a request can fail yields the corresponding error *)
+
+Definition nr_tok (k : nr_kind) : option N :=
+  match k with
+  | NRCommand t _ _ | NRDeadBand t | NREmpty t _ | NRRestart t _ => Some t
+  | NRAuto _ => None
+  end.
+(* the user's token of the outstanding task *)
+Definition run_tok (r : running) : option N :=
+  match r with
+  | RNonRead k _ _ _ => nr_tok k
+  | RRead (RDUser t) _ _ _ _ => Some t
+  | RLink t _ => Some t
+  | _ => None
+  end.
+
+Lemma fail_running_res cfg st e st' o tok :
+  run_tok (s_run st) = Some tok -> fail_running cfg st e = (st', o) ->
+  In (s_now st, ORes tok (RErr e)) o /\ s_run st' = RNone.
+Proof.
+  unfold fail_running, run_tok. destruct (s_run st) as [|k seq d sd|k seq f d sd|tk d]; intros Ht H; try discriminate.
+  - destruct (nr_error cfg st k e) as [st1 o1] eqn:E. injection H as <- <-. split; [|reflexivity].
+    apply in_or_app. left. unfold nr_error in E.
+    destruct k as [t ph hs|t|t fc|t cold|a]; cbn [nr_tok] in Ht; try discriminate; injection Ht as ->;
+      injection E as <- <-; apply in_emit; reflexivity.
+  - destruct k as [t|]; [|discriminate]. injection Ht as ->. cbn [rd_error] in H. injection H as <- <-.
+    split; [|reflexivity]. apply in_or_app. left. apply in_emit. reflexivity.
+  - injection Ht as ->. injection H as <- <-. split; [apply in_emit; reflexivity|reflexivity].
+Qed.
+
+Lemma mstep_obs_event cfg st ev st0 o0 x :
+  s_stopped st = false -> on_event cfg st ev = (st0, o0) -> In x o0 -> In x (snd (mstep cfg st ev)).
+Proof.
+  intros Hs E Hin. unfold mstep, then_pump. rewrite Hs, E. destruct (run_pump cfg st0) as [st1 o1].
+  destruct (advance _ cfg st1 _) as [st2 o2]. cbn [snd]. apply in_or_app. right. apply in_or_app. left.
+  apply in_or_app. left. exact Hin.
+Qed.
+
+(* (a) the echo differs from the request: the operation fails with the comparison's verdict, it
+   does not succeed, and the reply was indeed not a faithful echo *)
+Theorem mismatch_is_error cfg st src frag items h objs tok ph hs q d sd e :
+  s_stopped st = false -> s_conn st = true -> s_assoc st = true ->
+  s_run st = RNonRead (NRCommand tok ph hs) q d sd ->
+  parse_response frag = PResponse h objs -> h_unsol h = false -> accepted_answer cfg st src h = true ->
+  compare hs objs = CErr e ->
+  In (s_now st, ORes tok (RCmdErr e)) (snd (mstep cfg st (ERx src frag VOk items))) /\
+  In (s_now st, OInfoFail TCommand EBadHeaders) (snd (mstep cfg st (ERx src frag VOk items))) /\
+  ~ In (ORes tok ROk) (map snd (snd (mstep cfg st (ERx src frag VOk items)))) /\
+  ~ faithful_echo hs objs.
+Proof.
+  intros Hs Hc Hassoc Hr Hp Hu Ha Hcmp.
+  destruct (accepted_answer_inv _ _ _ _ Ha) as (Hsrc & Hi & Hcase).
+  destruct Hcase as [(kk & q0 & d0 & sd0 & Hr' & Hq & Hfir & Hfin)|(kk & q0 & f & d0 & sd0 & Hr' & _)];
+    rewrite Hr in Hr'; [|discriminate]. injection Hr' as <- <- <- <-.
+  assert (E : exists st0 o0, on_event cfg st (ERx src frag VOk items) = (st0, o0) /\
+            In (s_now st, ORes tok (RCmdErr e)) o0 /\ In (s_now st, OInfoFail TCommand EBadHeaders) o0).
+  { cbn [on_event]. unfold on_rx. rewrite Hc, Hp, Hr. cbn [negb]. unfold on_nonread_rx.
+    rewrite Hu, Hsrc, N.eqb_refl, Hq, N.eqb_refl, Hfir, Hfin, Hi, Hassoc. cbn [negb andb].
+    unfold handle_nonread_response. rewrite Hcmp. unfold nr_failed. cbn [nr_type].
+    eexists _, _. split; [reflexivity|].
+    assert (Hnow : s_now (process_iin st (h_iin1 h)) = s_now st).
+    { unfold process_iin. destruct (iin1_restart _); [destruct (s_clear st)|]; reflexivity. }
+    split; apply in_or_app; right; apply in_or_app; right; apply in_or_app; [left|right]; apply in_emit;
+      rewrite Hnow; reflexivity. }
+  destruct E as (st0 & o0 & E & H1 & H2).
+  split; [eapply mstep_obs_event; eauto|]. split; [eapply mstep_obs_event; eauto|]. split.
+  - intros Hin. destruct (command_success_local _ _ _ _ _ _ _ _ _ _ Hs Hr Hin)
+      as (_ & _ & s' & f' & i' & h' & o' & Heq & Hp' & _ & _ & _ & _ & _ & _ & Hok).
+    injection Heq as <- <- <-. rewrite Hp in Hp'. injection Hp' as <- <-. rewrite Hcmp in Hok. discriminate.
+  - eapply compare_err_not_faithful; eauto.
+Qed.
+
+(* (b) IIN2 rejection *)
+Theorem iin2_rejection_is_error cfg st src frag v items h objs tok :
+  s_stopped st = false -> s_conn st = true -> run_tok (s_run st) = Some tok ->
+  parse_response frag = PResponse h objs -> h_unsol h = false ->
+  is_answer cfg st src h = true -> flags_ok st h = true -> iin2_bad (h_iin2 h) = true ->
+  In (s_now st, ORes tok (RErr (ERejected (h_iin1 h) (h_iin2 h)))) (snd (mstep cfg st (ERx src frag v items))).
+Proof.
+  intros Hs Hc Ht Hp Hu Hans Hf Hi.
+  destruct (fail_running cfg st (ERejected (h_iin1 h) (h_iin2 h))) as [st1 o1] eqn:E.
+  destruct (fail_running_res _ _ _ _ _ _ Ht E) as [Hin _].
+  assert (E0 : on_event cfg st (ERx src frag v items) = (st1, emit st (OPv v) ++ o1)).
+  { cbn [on_event]. unfold on_rx. rewrite Hc, Hp. cbn [negb]. unfold is_answer, flags_ok in *.
+    destruct (s_run st) as [|k seq d sd|k seq first d sd|tk d] eqn:Hr; try (rewrite Bool.andb_false_r in Hans; discriminate).
+    - apply Bool.andb_true_iff in Hans. destruct Hans as [H1 H2]. unfold on_nonread_rx.
+      rewrite Hu, H1, H2, Hf, Hi. cbn [negb]. rewrite E. reflexivity.
+    - apply Bool.andb_true_iff in Hans. destruct Hans as [H1 H2]. unfold on_read_rx.
+      apply Bool.andb_true_iff in Hf. destruct Hf as [Hf1 Hf2]. apply Bool.eqb_prop in Hf1.
+      rewrite Hu, H1, H2, Hi. cbn [negb]. rewrite Hf1.
+      destruct first; cbn [negb andb]; rewrite ?Bool.andb_false_r; cbn [andb];
+        (destruct (c_fin (h_ctrl h)); cbn [orb negb andb] in *; [|rewrite Hf2; cbn [negb]]); rewrite E; reflexivity. }
+  eapply mstep_obs_event; [exact Hs|exact E0|]. apply in_or_app. right. exact Hin.
+Qed.
+
+(* (c) disable, connection loss, shutdown: the outstanding request and every queued request fail
+   with the corresponding error *)
+Theorem stop_is_error cfg st ev why tok :
+  s_stopped st = false -> s_conn st = true ->
+  (ev = EDisable /\ why = StDisable \/ ev = EDropIo /\ why = StLink \/ ev = EShutdown /\ why = StShutdown) ->
+  (run_tok (s_run st) = Some tok \/ (s_assoc st = true /\ In tok (map fst (s_queue st)))) ->
+  In (s_now st, ORes tok (RErr (stop_err why))) (snd (mstep cfg st ev)).
+Proof.
+  intros Hs Hc Hev Htok.
+  assert (Hstop : forall st1, s_now st1 = s_now st -> s_run st1 = s_run st -> s_assoc st1 = s_assoc st -> s_queue st1 = s_queue st ->
+            forall st2 o, stop_run cfg st1 why = (st2, o) -> In (s_now st, ORes tok (RErr (stop_err why))) o).
+  { intros st1 Hnow Hrun Has Hqu st2 o H. unfold stop_run in H.
+    destruct (fail_running cfg st1 (stop_err why)) as [st3 o3] eqn:E3.
+    destruct (if s_assoc st3 then _ else _) as [st4 o4] eqn:E4. injection H as <- <-.
+    destruct Htok as [Ht|[Ha Hq]].
+    - rewrite <- Hrun in Ht. destruct (fail_running_res _ _ _ _ _ _ Ht E3) as [Hin _]. rewrite Hnow in Hin.
+      apply in_or_app. left. exact Hin.
+    - apply in_or_app. right. apply in_or_app. left.
+      assert (Hk : s_assoc st3 = true /\ s_queue st3 = s_queue st /\ s_now st3 = s_now st).
+      { destruct (fail_running_frame _ _ _ _ _ E3) as (F1 & _ & _ & _ & _ & F6 & F7 & _). repeat split; congruence. }
+      destruct Hk as (Hk1 & Hk2 & Hk3). rewrite Hk1 in E4. unfold reset_assoc in E4. injection E4 as _ <-.
+      rewrite Hk2. apply in_flat_map. apply in_map_iff in Hq. destruct Hq as ([tk u] & Hfst & Hin). cbn [fst] in Hfst. subst tk.
+      exists (tok, u). split; [exact Hin|]. cbn [fst]. apply in_emit. rewrite Hk3. reflexivity. }
+  assert (E0 : exists st2 o, on_event cfg st ev = (st2, o) /\ In (s_now st, ORes tok (RErr (stop_err why))) o).
+  { destruct Hev as [[-> ->]|[[-> ->]|[-> ->]]]; cbn [on_event]; rewrite Hc.
+    - destruct (stop_run cfg _ StDisable) as [st2 o] eqn:E. exists st2, o. split; [reflexivity|].
+      eapply Hstop; [..|exact E]; reflexivity.
+    - destruct (stop_run cfg st StLink) as [st2 o] eqn:E. exists st2, o. split; [reflexivity|].
+      eapply Hstop; [..|exact E]; reflexivity.
+    - destruct (stop_run cfg st StShutdown) as [st2 o] eqn:E. eexists _, _. split; [reflexivity|].
+      apply in_or_app. left. eapply Hstop; [..|exact E]; reflexivity. }
+  destruct E0 as (st2 & o & E0 & Hin). eapply mstep_obs_event; eauto.
+Qed.
+
+(* (d) silence: when the response timeout of the outstanding request passes, the request fails
+   with ResponseTimeout at that instant *)
+Theorem timeout_is_error cfg st ms tok dl :
+  s_stopped st = false -> s_conn st = true -> run_tok (s_run st) = Some tok ->
+  wake_time cfg st = Some dl -> dl <= s_now st + (ms + 1) ->
+  In (N.max (s_now st) dl, ORes tok (RErr ETimeout)) (snd (mstep cfg st (ESleep ms))).
+Proof.
+  intros Hs Hc Ht Hw Hle. unfold mstep, then_pump. rewrite Hs. cbn [on_event span_of].
+  assert (Hp : run_pump cfg st = (st, [])).
+  { unfold run_pump, pump_fuel. cbn [pump]. rewrite Hc. cbn [negb]. destruct (s_run st); try reflexivity. discriminate. }
+  rewrite Hp. cbn [app]. cbn [advance]. rewrite Hw. apply N.leb_le in Hle. rewrite Hle.
+  destruct (fire cfg (set_now st (N.max (s_now st) dl))) as [st1 o1] eqn:E1.
+  destruct (advance (N.to_nat (ms + 1)) cfg st1 _) as [st4 o4]. cbn [snd].
+  apply in_or_app. right. apply in_or_app. left.
+  unfold fire, then_pump in E1. cbn [s_run set_now] in E1.
+  destruct (fail_running cfg (set_now st (N.max (s_now st) dl)) ETimeout) as [st2 o2] eqn:E2.
+  assert (Ht' : run_tok (s_run (set_now st (N.max (s_now st) dl))) = Some tok) by exact Ht.
+  destruct (fail_running_res _ _ _ _ _ _ Ht' E2) as [Hin _]. cbn [s_now set_now] in Hin.
+  destruct (s_run st); try discriminate; destruct (run_pump cfg st2) as [st3 o3]; injection E1 as _ <-;
+    apply in_or_app; left; exact Hin.
+Qed.
+
+(* ---------------------------------------------------------------------------------------- *)
+(* C16.4 one_outcome: promises are conserved *)
+
+Definition res_tok (o : mobs) : list N := match o with ORes t _ => [t] | _ => [] end.
+(* the tokens completed by a list of observations, with multiplicity *)
+Definition res_toks (l : list tobs) : list N := flat_map (fun p => res_tok (snd p)) l.
+
+Definition opt_list (x : option N) : list N := match x with Some t => [t] | None => [] end.
+(* the tokens the master still owes an outcome: the outstanding task's and the queued ones *)
+Definition pending (st : mstate) : list N := opt_list (run_tok (s_run st)) ++ map fst (s_queue st).
+
+Definition cnt (tok : N) (l : list N) : nat := count_occ N.eq_dec l tok.
+
+Lemma cnt_app tok a b : cnt tok (a ++ b) = (cnt tok a + cnt tok b)%nat.
+Proof. apply count_occ_app. Qed.
+Lemma res_toks_app a b : res_toks (a ++ b) = res_toks a ++ res_toks b.
+Proof. unfold res_toks. apply flat_map_app. Qed.
+Lemma res_toks_emit st o : res_toks (emit st o) = res_tok o.
+Proof. Transparent emit. unfold res_toks, emit. cbn [flat_map snd]. apply app_nil_r. Qed.
+#[local] Opaque emit.
+Lemma res_toks_nil : res_toks [] = []. Proof. reflexivity. Qed.
+
+(* observations that complete nothing *)
+Definition silent (l : list tobs) : Prop := res_toks l = [].
+Lemma silent_deliver st rt h items : silent (deliver st rt h items).
+Proof.
+  unfold silent, deliver. rewrite !res_toks_app, !res_toks_emit. cbn [res_tok app]. rewrite app_nil_r.
+  induction items; cbn [flat_map]; [reflexivity|]. rewrite res_toks_app, res_toks_emit. exact IHitems.
+Qed.
+
+Ltac rt := rewrite ?res_toks_app, ?res_toks_emit, ?res_toks_nil; cbn [res_tok app].
+
+Lemma pending_frame st st' : s_run st' = s_run st -> s_queue st' = s_queue st -> pending st' = pending st.
+Proof. unfold pending. intros -> ->. reflexivity. Qed.
+
+Lemma notify_fail_silent st ty e : res_toks (notify_fail st ty e) = [].
+Proof. unfold notify_fail. destruct (s_assoc st); rt; reflexivity. Qed.
+
+Lemma nr_error_res cfg st k e st' o :
+  nr_error cfg st k e = (st', o) -> res_toks o = opt_list (nr_tok k) /\ s_queue st' = s_queue st /\ s_run st' = s_run st.
+Proof.
+  unfold nr_error. destruct k as [t ph hs|t|t fc|t cold|a]; intros H; try (injection H as <- <-; rt; repeat split).
+  destruct (s_assoc st); [|injection H as <- <-; rt; repeat split].
+  destruct e; injection H as <- <-; rt; (split; [reflexivity|]);
+    unfold auto_failure, auto_response; destruct a; try destruct (iin1_restart _); split; reflexivity.
+Qed.
+
+Lemma rd_error_res cfg st k e st' o :
+  rd_error cfg st k e = (st', o) ->
+  res_toks o = (match k with RDUser t => [t] | RDIntegrity => [] end) /\ s_queue st' = s_queue st /\ s_run st' = s_run st.
+Proof.
+  unfold rd_error. destruct k; intros H; [injection H as <- <-; rt; repeat split|].
+  destruct (s_assoc st); injection H as <- <-; rt; repeat split.
+Qed.
+
+Definition qcnt (tok : N) (st : mstate) : nat := cnt tok (map fst (s_queue st)).
+
+Ltac fin :=
+  unfold qcnt in *; unfold cnt in *; rewrite ?count_occ_app in *; cbn [count_occ app opt_list map fst] in *;
+  repeat (match goal with
+          | |- context [N.eq_dec ?a ?b] => destruct (N.eq_dec a b)
+          | H : context [N.eq_dec ?a ?b] |- _ => destruct (N.eq_dec a b)
+          end); try lia; try congruence.
+
+(* a task that ends completes exactly its own token *)
+Lemma fail_running_cons cfg st e st' o tok :
+  fail_running cfg st e = (st', o) -> (cnt tok (res_toks o) + cnt tok (pending st') = cnt tok (pending st))%nat.
+Proof.
+  unfold fail_running, pending. destruct (s_run st) as [|k seq d sd|k seq f d sd|tk d] eqn:Hr; intros H.
+  - injection H as <- <-. rewrite Hr. reflexivity.
+  - destruct (nr_error _ _ _ _) as [st1 o1] eqn:E. injection H as <- <-. destruct (nr_error_res _ _ _ _ _ _ E) as (H1 & H2 & _).
+    rt. rewrite notify_fail_silent, app_nil_r, H1. cbn [s_run set_run run_tok s_queue]. rewrite H2. fin.
+  - destruct (rd_error _ _ _ _) as [st1 o1] eqn:E. injection H as <- <-. destruct (rd_error_res _ _ _ _ _ _ E) as (H1 & H2 & _).
+    rt. rewrite notify_fail_silent, app_nil_r, H1. cbn [s_run set_run run_tok s_queue]. rewrite H2. destruct k; fin.
+  - injection H as <- <-. rt. cbn [s_run set_run run_tok s_queue]. fin.
+Qed.
+
+Lemma send_nonread_cons cfg st k objs sd st' o tok :
+  send_nonread cfg st k objs sd = (st', o) ->
+  (cnt tok (res_toks o) + cnt tok (pending st') = cnt tok (opt_list (nr_tok k)) + qcnt tok st)%nat.
+Proof.
+  unfold send_nonread, pending, qcnt. destruct (fits cfg objs); intros H.
+  - injection H as <- <-. rt. cbn [s_run set_run set_seq run_tok s_queue]. fin.
+  - destruct (nr_error _ _ _ _) as [st2 o2] eqn:E. injection H as <- <-. destruct (nr_error_res _ _ _ _ _ _ E) as (H1 & H2 & _).
+    rt. rewrite notify_fail_silent, app_nil_r, H1. cbn [s_run set_run run_tok s_queue]. rewrite H2. cbn [s_queue set_seq]. fin.
+Qed.
+
+Lemma start_nonread_cons cfg st k objs st' o tok :
+  start_nonread cfg st k objs = (st', o) ->
+  (cnt tok (res_toks o) + cnt tok (pending st') = cnt tok (opt_list (nr_tok k)) + qcnt tok st)%nat.
+Proof.
+  unfold start_nonread. destruct (send_nonread _ _ _ _ _) as [st1 o1] eqn:E. intros H. injection H as <- <-.
+  rt. eapply send_nonread_cons; eauto.
+Qed.
+
+Lemma start_read_cons cfg st k objs st' o tok :
+  start_read cfg st k objs = (st', o) ->
+  (cnt tok (res_toks o) + cnt tok (pending st') =
+   cnt tok (match k with RDUser t => [t] | RDIntegrity => [] end) + qcnt tok st)%nat.
+Proof.
+  unfold start_read, pending, qcnt. destruct (fits cfg objs); intros H.
+  - injection H as <- <-. rt. cbn [s_run set_run set_seq run_tok s_queue]. destruct k; fin.
+  - destruct (rd_error _ _ _ _) as [st2 o2] eqn:E. injection H as <- <-. destruct (rd_error_res _ _ _ _ _ _ E) as (H1 & H2 & _).
+    rt. rewrite notify_fail_silent, app_nil_r, H1. cbn [s_run set_run run_tok s_queue]. rewrite H2. cbn [s_queue set_seq]. destruct k; fin.
+Qed.
+
+Lemma start_user_cons cfg st t u st' o tok :
+  start_user cfg st t u = (st', o) -> (cnt tok (res_toks o) + cnt tok (pending st') = cnt tok [t] + qcnt tok st)%nat.
+Proof.
+  unfold start_user. destruct u; intros H.
+  - apply (start_read_cons _ _ _ _ _ _ tok) in H. exact H.
+  - apply (start_nonread_cons _ _ _ _ _ _ tok) in H. exact H.
+  - apply (start_nonread_cons _ _ _ _ _ _ tok) in H. exact H.
+  - apply (start_nonread_cons _ _ _ _ _ _ tok) in H. exact H.
+  - apply (start_nonread_cons _ _ _ _ _ _ tok) in H. exact H.
+  - injection H as <- <-. rt. unfold pending. cbn [s_run set_run run_tok s_queue]. fin.
+Qed.
+
+Lemma auto_next_not_user a now task t u :
+  (forall t u, task <> NxUser t u) -> auto_next a now task <> Some (NxUser t u).
+Proof.
+  intros Ht. unfold auto_next. destruct a as [| |l nx]; try discriminate.
+  - intros H. injection H as H. eapply Ht; eauto.
+  - destruct (nx <=? now); intros H; injection H as H; [eapply Ht; eauto|discriminate].
+Qed.
+
+Lemma next_task_user cfg st t u : next_task cfg st = NxUser t u -> exists r, s_queue st = (t, u) :: r.
+Proof.
+  unfold next_task. destruct (negb (s_assoc st)); [discriminate|].
+  destruct (s_queue st) as [|[t' u'] r]; [|intros H; injection H as -> ->; eauto].
+  intros H. exfalso.
+  destruct (auto_next (s_clear st) _ _) as [n|] eqn:E0.
+  { subst n. eapply auto_next_not_user; [|exact E0]. discriminate. }
+  destruct (if c_disable cfg =? 0 then None else _) as [n|] eqn:E1.
+  { subst n. destruct (c_disable cfg =? 0); [discriminate|]. eapply auto_next_not_user; [|exact E1]. discriminate. }
+  destruct (if c_integrity cfg =? 0 then None else _) as [n|] eqn:E2.
+  { subst n. destruct (c_integrity cfg =? 0); [discriminate|]. eapply auto_next_not_user; [|exact E2]. discriminate. }
+  destruct (if c_enable cfg =? 0 then None else _) as [n|] eqn:E3; [|discriminate].
+  subst n. destruct (c_enable cfg =? 0); [discriminate|]. eapply auto_next_not_user; [|exact E3]. discriminate.
+Qed.
+
+Lemma pump_cons fuel cfg tok : forall st st' o,
+  pump fuel cfg st = (st', o) -> (cnt tok (res_toks o) + cnt tok (pending st') = cnt tok (pending st))%nat.
+Proof.
+  induction fuel as [|f IH]; intros st st' o H; cbn [pump] in H; [injection H as <- <-; reflexivity|].
+  destruct (negb (s_conn st)); [injection H as <- <-; reflexivity|].
+  destruct (s_run st) eqn:Hr; try (injection H as <- <-; reflexivity).
+  destruct (next_task cfg st) as [|t|t u|a|] eqn:Hn; try (injection H as <- <-; reflexivity).
+  - destruct (next_task_user _ _ _ _ Hn) as (r & Hq).
+    destruct (start_user _ _ _ _) as [st1 o1] eqn:E1. destruct (pump f cfg st1) as [st2 o2] eqn:E2.
+    injection H as <- <-. rt. rewrite cnt_app. specialize (IH _ _ _ E2).
+    apply (start_user_cons _ _ _ _ _ _ tok) in E1. unfold qcnt in E1. cbn [s_queue set_queue] in E1. rewrite Hq in E1. cbn [tl] in E1.
+    unfold pending at 2. rewrite Hr, Hq. cbn [run_tok opt_list app map fst]. change (t :: map fst r) with ([t] ++ map fst r).
+    rewrite cnt_app. lia.
+  - destruct (start_nonread _ _ _ _) as [st1 o1] eqn:E1. destruct (pump f cfg st1) as [st2 o2] eqn:E2.
+    injection H as <- <-. rt. rewrite cnt_app. specialize (IH _ _ _ E2).
+    apply (start_nonread_cons _ _ _ _ _ _ tok) in E1. cbn [nr_tok opt_list] in E1.
+    unfold pending at 2. rewrite Hr. cbn [run_tok opt_list app]. unfold qcnt in E1. cbn [cnt count_occ] in E1. lia.
+  - destruct (start_read _ _ _ _) as [st1 o1] eqn:E1. destruct (pump f cfg st1) as [st2 o2] eqn:E2.
+    injection H as <- <-. rt. rewrite cnt_app. specialize (IH _ _ _ E2).
+    apply (start_read_cons _ _ _ _ _ _ tok) in E1.
+    unfold pending at 2. rewrite Hr. cbn [run_tok opt_list app]. unfold qcnt in E1. cbn [cnt count_occ] in E1. lia.
+Qed.
+
+Lemma process_iin_queue st i : s_queue (process_iin st i) = s_queue st.
+Proof. unfold process_iin. destruct (iin1_restart i); [destruct (s_clear st)|]; reflexivity. Qed.
+Lemma process_iin_run st i : s_run (process_iin st i) = s_run st.
+Proof. apply process_iin_keeps. Qed.
+
+Lemma handle_unsol_cons cfg st src h objs v items st' o :
+  handle_unsol cfg st src h objs v items = (st', o) -> res_toks o = [] /\ pending st' = pending st.
+Proof.
+  unfold handle_unsol. destruct (_ && s_assoc st); [|intros H; injection H as <- <-; split; reflexivity].
+  assert (Hp : pending (process_iin st (h_iin1 h)) = pending st).
+  { apply pending_frame; [apply process_iin_run|apply process_iin_queue]. }
+  destruct (_ || _); [|intros H; injection H as <- <-; split; [reflexivity|exact Hp]].
+  destruct v; try (intros H; injection H as <- <-; split; [reflexivity|exact Hp]).
+  destruct (match s_last_unsol _ with Some _ => _ | None => _ end); intros H; injection H as <- <-.
+  - split; [|exact Hp]. rt. destruct (c_con _); rt; reflexivity.
+  - split; [|exact Hp]. rt. rewrite silent_deliver. destruct (c_con _); rt; reflexivity.
+Qed.
+
+Lemma auto_response_queue cfg st a i : s_queue (auto_response cfg st a i) = s_queue st.
+Proof. apply auto_response_frame. Qed.
+
+Lemma handle_nonread_response_cons cfg st k seq sd h objs v st' o tok :
+  handle_nonread_response cfg st k seq sd h objs v = (st', o) ->
+  (cnt tok (res_toks o) + cnt tok (pending st') = cnt tok (opt_list (nr_tok k)) + qcnt tok st)%nat.
+Proof.
+  unfold handle_nonread_response, nr_success, nr_failed. destruct k as [t ph hs|t|t fc|t cold|a].
+  - destruct v; try (intros H; injection H as <- <-; rt; unfold pending; cbn [s_run set_run run_tok s_queue nr_tok]; fin).
+    destruct (compare hs objs); [|intros H; injection H as <- <-; rt; unfold pending; cbn [s_run set_run run_tok s_queue nr_tok]; fin].
+    destruct ph; try (intros H; injection H as <- <-; rt; unfold pending; cbn [s_run set_run run_tok s_queue nr_tok]; fin).
+    intros H. apply (send_nonread_cons _ _ _ _ _ _ _ tok) in H. exact H.
+  - destruct objs; intros H; injection H as <- <-; rt; unfold pending; cbn [s_run set_run run_tok s_queue nr_tok]; fin.
+  - destruct objs; intros H; injection H as <- <-; rt; unfold pending; cbn [s_run set_run run_tok s_queue nr_tok]; fin.
+  - destruct v; try (intros H; injection H as <- <-; rt; unfold pending; cbn [s_run set_run run_tok s_queue nr_tok]; fin).
+    destruct (restart_delay objs); intros H; injection H as <- <-; rt; unfold pending; cbn [s_run set_run run_tok s_queue nr_tok]; fin.
+  - intros H; injection H as <- <-; rt; unfold pending; cbn [s_run set_run run_tok s_queue nr_tok]. rewrite auto_response_queue. fin.
+Qed.
+
+Lemma on_nonread_rx_cons cfg st k seq d sd src h objs v items st' o tok :
+  s_run st = RNonRead k seq d sd -> on_nonread_rx cfg st k seq d sd src h objs v items = (st', o) ->
+  (cnt tok (res_toks o) + cnt tok (pending st') = cnt tok (pending st))%nat.
+Proof.
+  intros Hr. unfold on_nonread_rx.
+  destruct (h_unsol h). { intros H. destruct (handle_unsol_cons _ _ _ _ _ _ _ _ _ H) as [-> ->]. reflexivity. }
+  destruct (negb (src =? c_addr cfg)); [intros H; injection H as <- <-; reflexivity|].
+  destruct (negb (c_seq (h_ctrl h) =? seq)); [intros H; injection H as <- <-; reflexivity|].
+  destruct (negb (_ && _)); [apply fail_running_cons|].
+  destruct (iin2_bad _); [apply fail_running_cons|].
+  assert (Hc : forall x, res_toks (if c_con (h_ctrl h) then emit st (OTxConfirm (c_addr cfg) false seq) else []) ++ x = x).
+  { intros x. destruct (c_con _); rt; reflexivity. }
+  destruct (s_assoc st).
+  - destruct (handle_nonread_response _ _ _ _ _ _ _ _) as [st1 o1] eqn:E. intros H. injection H as <- <-.
+    rt. rewrite Hc. apply (handle_nonread_response_cons _ _ _ _ _ _ _ _ _ _ tok) in E.
+    unfold qcnt in E. rewrite process_iin_queue in E. unfold pending at 2. rewrite Hr. cbn [run_tok]. fin.
+  - destruct (nr_error _ _ _ _) as [st1 o1] eqn:E. intros H. injection H as <- <-. destruct (nr_error_res _ _ _ _ _ _ E) as (H1 & H2 & _).
+    rt. rewrite Hc, H1. unfold pending. rewrite Hr. cbn [s_run set_run run_tok s_queue]. rewrite H2. fin.
+Qed.
+
+Lemma on_read_rx_cons cfg st k seq first d sd src h objs v items st' o tok :
+  s_run st = RRead k seq first d sd -> on_read_rx cfg st k seq first d sd src h objs v items = (st', o) ->
+  (cnt tok (res_toks o) + cnt tok (pending st') = cnt tok (pending st))%nat.
+Proof.
+  intros Hr. unfold on_read_rx.
+  destruct (h_unsol h). { intros H. destruct (handle_unsol_cons _ _ _ _ _ _ _ _ _ H) as [-> ->]. reflexivity. }
+  destruct (negb (src =? c_addr cfg)); [intros H; injection H as <- <-; reflexivity|].
+  destruct (negb (c_seq (h_ctrl h) =? seq)); [intros H; injection H as <- <-; reflexivity|].
+  destruct (_ && negb first); [apply fail_running_cons|].
+  destruct (negb _ && first); [apply fail_running_cons|].
+  destruct (negb _ && negb _); [apply fail_running_cons|].
+  destruct (iin2_bad _); [apply fail_running_cons|].
+  destruct (negb (s_assoc st)); [apply fail_running_cons|].
+  assert (Hp : pending (process_iin st (h_iin1 h)) = pending st).
+  { apply pending_frame; [apply process_iin_run|apply process_iin_queue]. }
+  destruct v; try (intros H; apply (fail_running_cons _ _ _ _ _ tok) in H; rewrite Hp in H; exact H).
+  assert (Hc : res_toks (if c_con (h_ctrl h) then emit st (OTxConfirm (c_addr cfg) false seq) else []) = []).
+  { destruct (c_con _); rt; reflexivity. }
+  assert (Hd : forall r, res_toks (deliver st r h items) = []) by (intros; apply silent_deliver).
+  destruct (c_fin _).
+  - destruct k as [t|]; intros H; injection H as <- <-; rt; rewrite Hc, Hd; unfold pending; rewrite Hr;
+      cbn [s_run set_run run_tok s_queue set_integ set_autos app]; rewrite process_iin_queue; fin.
+  - intros H; injection H as <- <-. rt. rewrite Hc, Hd. unfold pending. rewrite Hr.
+    cbn [s_run set_run set_seq run_tok s_queue app]. rewrite process_iin_queue. destruct k; fin.
+Qed.
+
+Lemma on_rx_cons cfg st src frag v items st' o tok :
+  on_rx cfg st src frag v items = (st', o) -> (cnt tok (res_toks o) + cnt tok (pending st') = cnt tok (pending st))%nat.
+Proof.
+  unfold on_rx. destruct (negb (s_conn st)); [intros H; injection H as <- <-; rt; reflexivity|].
+  destruct (parse_response frag) as [|h objs].
+  - destruct (s_run st); try apply fail_running_cons. intros H; injection H as <- <-; reflexivity.
+  - destruct (s_run st) as [|k seq d sd|k seq first d sd|tk d] eqn:Hr.
+    + destruct (h_unsol h); [|intros H; injection H as <- <-; reflexivity].
+      intros H. destruct (handle_unsol_cons _ _ _ _ _ _ _ _ _ H) as [-> ->]. reflexivity.
+    + apply on_nonread_rx_cons. exact Hr.
+    + apply on_read_rx_cons. exact Hr.
+    + destruct (if h_unsol h then _ else _) as [st1 o1] eqn:E1. destruct (fail_running cfg st1 EBadHeaders) as [st2 o2] eqn:E2.
+      intros H. injection H as <- <-. rt. rewrite cnt_app. apply (fail_running_cons _ _ _ _ _ tok) in E2.
+      destruct (h_unsol h).
+      * destruct (handle_unsol_cons _ _ _ _ _ _ _ _ _ E1) as [-> Hp]. rewrite Hp in E2. exact E2.
+      * injection E1 as <- <-. exact E2.
+Qed.
+
+(* the token a stimulus submits *)
+Definition submitted (ev : mevent) : list N := match ev with EUser t _ => [t] | _ => [] end.
+
+Lemma res_toks_queue_flat (st : mstate) (f : N -> result) (q : list (N * utask)) :
+  res_toks (flat_map (fun p => emit st (ORes (fst p) (f (fst p)))) q) = map fst q.
+Proof. induction q as [|[t u] q IH]; cbn [flat_map map fst]; [reflexivity|]. rt. rewrite IH. reflexivity. Qed.
+
+Lemma stop_run_cons cfg st why st' o tok :
+  stop_run cfg st why = (st', o) ->
+  (cnt tok (res_toks o) + cnt tok (pending st') = cnt tok (pending st))%nat /\ (s_assoc st = false -> s_queue st' = s_queue st).
+Proof.
+  unfold stop_run. destruct (fail_running _ _ _) as [st1 o1] eqn:E1.
+  pose proof (fail_running_cons _ _ _ _ _ tok E1) as H1. pose proof (fail_running_idle _ _ _ _ _ E1) as [Hidle _].
+  pose proof (fail_running_frame _ _ _ _ _ E1) as (_ & _ & _ & _ & _ & Fa & Fq & _).
+  destruct (s_assoc st1) eqn:Ha.
+  - unfold reset_assoc. intros H. injection H as <- <-. split; [|intros Hf; congruence].
+    rt. rewrite (res_toks_queue_flat st1 (fun _ => RErr (stop_err why))), app_nil_r.
+    unfold pending in *. cbn [s_run set_chan set_last_unsol set_autos set_queue s_queue]. rewrite Hidle in *.
+    cbn [run_tok map] in *. fin.
+  - intros H. injection H as <- <-. split; [|intros _; exact Fq]. rt. rewrite app_nil_r.
+    unfold pending in *. cbn [s_run set_chan s_queue]. exact H1.
+Qed.
+
+Lemma on_event_cons cfg st ev st' o tok :
+  on_event cfg st ev = (st', o) ->
+  (cnt tok (res_toks o) + cnt tok (pending st') = cnt tok (submitted ev) + cnt tok (pending st))%nat.
+Proof.
+  destruct ev as [src frag v items|ms|t u| | | | | |]; cbn [on_event submitted]; intros H.
+  - destruct (on_rx _ _ _ _ _ _) as [st1 o1] eqn:E. injection H as <- <-. rt. apply (on_rx_cons _ _ _ _ _ _ _ _ tok) in E. fin.
+  - injection H as <- <-. reflexivity.
+  - unfold on_user in H. destruct (negb (s_assoc st)); [injection H as <- <-; rt; fin|].
+    destruct (negb (s_conn st)); [injection H as <- <-; rt; fin|].
+    destruct (_ <? _)%nat; injection H as <- <-; rt; [|fin].
+    unfold pending. cbn [s_run set_queue s_queue]. rewrite map_app. cbn [map fst]. fin.
+  - destruct (s_conn st); [|injection H as <- <-; reflexivity].
+    apply (stop_run_cons _ _ _ _ _ tok) in H. destruct H as [H _]. exact H.
+  - destruct (s_conn st); [injection H as <- <-; reflexivity|].
+    unfold try_connect in H. destruct (_ && _); injection H as <- <-; rt; reflexivity.
+  - destruct (s_conn st); [|injection H as <- <-; reflexivity].
+    apply (stop_run_cons _ _ _ _ _ tok) in H. destruct H as [H _]. exact H.
+  - unfold try_connect in H. destruct (_ && _); injection H as <- <-; rt; reflexivity.
+  - injection H as <- <-. rewrite (res_toks_queue_flat st (fun _ => RDropped)). unfold pending.
+    cbn [s_run set_queue set_assoc s_queue map]. fin.
+  - destruct (if s_conn st then _ else _) as [st1 o1] eqn:E. injection H as <- <-. rt. rewrite app_nil_r.
+    unfold pending. cbn [s_run set_chan s_queue]. destruct (s_conn st).
+    + apply (stop_run_cons _ _ _ _ _ tok) in E. destruct E as [E _]. exact E.
+    + injection E as <- <-. reflexivity.
+Qed.
+
+Lemma then_pump_cons cfg st1 o1 st' o tok :
+  then_pump cfg (st1, o1) = (st', o) ->
+  (cnt tok (res_toks o) + cnt tok (pending st') = cnt tok (res_toks o1) + cnt tok (pending st1))%nat.
+Proof.
+  unfold then_pump, run_pump. destruct (pump _ cfg st1) as [st2 o2] eqn:E. intros H. injection H as <- <-.
+  rt. rewrite cnt_app. apply (pump_cons _ _ tok) in E. lia.
+Qed.
+
+Lemma fire_cons cfg st st' o tok :
+  fire cfg st = (st', o) -> (cnt tok (res_toks o) + cnt tok (pending st') = cnt tok (pending st))%nat.
+Proof.
+  unfold fire. destruct (s_run st) eqn:Hr; try (apply pump_cons);
+    destruct (fail_running cfg st ETimeout) as [st1 o1] eqn:E; intros H; apply (then_pump_cons _ _ _ _ _ tok) in H;
+    apply (fail_running_cons _ _ _ _ _ tok) in E; lia.
+Qed.
+
+Lemma advance_cons fuel cfg tok : forall st target st' o,
+  advance fuel cfg st target = (st', o) -> (cnt tok (res_toks o) + cnt tok (pending st') = cnt tok (pending st))%nat.
+Proof.
+  induction fuel as [|f IH]; intros st target st' o H; cbn [advance] in H; [injection H as <- <-; reflexivity|].
+  destruct (wake_time cfg st) as [d|]; [|injection H as <- <-; reflexivity].
+  destruct (d <=? target); [|injection H as <- <-; reflexivity].
+  destruct (fire _ _) as [st1 o1] eqn:E1. destruct (advance f cfg st1 target) as [st2 o2] eqn:E2.
+  injection H as <- <-. rt. rewrite cnt_app. apply (fire_cons _ _ _ _ tok) in E1. apply IH in E2.
+  change (pending (set_now st (N.max (s_now st) d))) with (pending st) in E1. lia.
+Qed.
+
+(* one step: completions + what is still owed afterwards = what was owed + what was submitted *)
+Theorem mstep_conserves cfg st ev tok :
+  s_stopped st = false ->
+  (cnt tok (res_toks (snd (mstep cfg st ev))) + cnt tok (pending (fst (mstep cfg st ev)))
+   = cnt tok (submitted ev) + cnt tok (pending st))%nat.
+Proof.
+  intros Hs. unfold mstep. rewrite Hs.
+  destruct (on_event cfg st ev) as [st0 o0] eqn:E0. destruct (then_pump cfg (st0, o0)) as [st1 o1] eqn:E1.
+  destruct (advance _ cfg st1 _) as [st2 o2] eqn:E2. cbn [fst snd]. rt. rewrite cnt_app.
+  apply (on_event_cons _ _ _ _ _ tok) in E0. apply (then_pump_cons _ _ _ _ _ tok) in E1. apply (advance_cons _ _ tok) in E2. lia.
+Qed.
+
+Lemma steps_from_run cfg tok : forall evs st,
+  (cnt tok (res_toks (concat (run_from cfg st evs))) + cnt tok (pending (final_from cfg st evs))
+   = cnt tok (flat_map (fun p => if s_stopped (fst p) then [] else submitted (snd p)) (steps_from cfg st evs))
+     + cnt tok (pending st))%nat.
+Proof.
+  induction evs as [|ev evs IH]; intros st; cbn [run_from final_from steps_from flat_map concat]; [reflexivity|].
+  destruct (mstep cfg st ev) as [st1 o1] eqn:E. cbn [fst snd concat]. rt. rewrite !cnt_app. specialize (IH st1).
+  destruct (s_stopped st) eqn:Hs.
+  - rewrite mstep_stopped in E by assumption. injection E as <- <-.
+    cbn [res_toks flat_map res_tok snd app cnt count_occ] in *. lia.
+  - pose proof (mstep_conserves cfg st ev tok Hs) as Hc. rewrite E in Hc. cbn [fst snd] in Hc. lia.
+Qed.
+
+Lemma minit_silent cfg : res_toks (snd (minit cfg)) = [] /\ pending (fst (minit cfg)) = [].
+Proof.
+  unfold minit. destruct (run_pump cfg _) as [st1 o1] eqn:E1. destruct (advance 2 cfg st1 1) as [st2 o2] eqn:E2.
+  cbn [fst snd]. rt.
+  assert (H1 : forall tok, (cnt tok (res_toks o1) + cnt tok (pending st1) = 0)%nat).
+  { intros tok. apply (pump_cons _ _ tok) in E1. exact E1. }
+  assert (H2 : forall tok, (cnt tok (res_toks o2) + cnt tok (pending st2) = cnt tok (pending st1))%nat).
+  { intros tok. apply (advance_cons _ _ tok) in E2. exact E2. }
+  assert (Hz : forall l : list N, (forall tok, cnt tok l = 0%nat) -> l = []).
+  { intros l Hl. destruct l as [|x l]; [reflexivity|]. specialize (Hl x). unfold cnt in Hl. cbn [count_occ] in Hl.
+    destruct (N.eq_dec x x); [discriminate|congruence]. }
+  assert (Ha : res_toks o1 = [] /\ pending st1 = []).
+  { split; apply Hz; intros tok; specialize (H1 tok); lia. }
+  destruct Ha as [Ha1 Ha2]. rewrite Ha1. cbn [app].
+  split; apply Hz; intros tok; specialize (H2 tok); rewrite Ha2 in H2; cbn [cnt count_occ] in H2; lia.
+Qed.
+
+(* C16.4 one_outcome.  For every token: the number of times it is completed in a run plus the number
+   of times it is still owed at the end (outstanding task or request queue) equals the number of
+   times it was submitted (while the master had not been shut down).  A token submitted once is
+   therefore never completed twice, and it is completed exactly once unless it is still
+   outstanding or queued when the run ends. *)
+Theorem one_outcome : forall cfg evs tok,
+  (cnt tok (res_toks (concat (run cfg evs))) + cnt tok (pending (final cfg evs))
+   = cnt tok (flat_map (fun p => if s_stopped (fst p) then [] else submitted (snd p)) (steps cfg evs)))%nat.
+Proof.
+  intros cfg evs tok. unfold run, final, steps. destruct (minit_silent cfg) as [H1 H2].
+  destruct (minit cfg) as [st0 o0]. cbn [fst snd concat] in *. rt. rewrite cnt_app, H1.
+  pose proof (steps_from_run cfg tok evs st0) as H. rewrite H2 in H. cbn [cnt count_occ] in *. lia.
+Qed.
+
+Corollary at_most_one_outcome : forall cfg evs tok,
+  (cnt tok (flat_map (fun p => if s_stopped (fst p) then [] else submitted (snd p)) (steps cfg evs)) <= 1)%nat ->
+  (cnt tok (res_toks (concat (run cfg evs))) <= 1)%nat.
+Proof. intros cfg evs tok H. pose proof (one_outcome cfg evs tok). lia. Qed.
+
+(* ---------------------------------------------------------------------------------------- *)
+(* C16.5 bounded_steps: deadlines *)
+
+Definition nr_steps (k : nr_kind) : N := match k with NRCommand _ PhOperate _ => 2 | _ => 1 end.
+
+(* the outstanding task is waited for only while connected; its deadline lies in the future, at
+   most [nr_steps] response timeouts after the task was started (one response timeout after the
+   last fragment for a READ) *)
+Definition run_ok (cfg : mcfg) (st : mstate) : Prop :=
+  match s_run st with
+  | RNone => True
+  | RNonRead k _ dl sd =>
+    s_conn st = true /\ sd <= s_now st /\ s_now st < dl /\ dl <= sd + nr_steps k * c_timeout cfg
+  | RRead _ _ _ dl _ => s_conn st = true /\ s_now st < dl /\ dl <= s_now st + c_timeout cfg
+  | RLink _ dl => s_conn st = true /\ s_now st < dl /\ dl <= s_now st + c_timeout cfg
+  end.
+
+Definition J (cfg : mcfg) (st : mstate) : Prop :=
+  run_ok cfg st /\ (s_conn st = false -> s_queue st = []) /\ (s_assoc st = false -> s_queue st = []).
+
+(* channel part of the state *)
+Definition cf (st st' : mstate) : Prop :=
+  s_now st' = s_now st /\ s_conn st' = s_conn st /\ s_assoc st' = s_assoc st.
+Lemma cf_refl st : cf st st. Proof. repeat split. Qed.
+Lemma cf_trans a b c : cf a b -> cf b c -> cf a c.
+Proof. unfold cf. intuition congruence. Qed.
+Lemma frame_cf a b : frame a b -> cf a b.
+Proof. unfold frame, cf. intuition. Qed.
+
+Lemma send_nonread_cf cfg st k objs sd st' o :
+  send_nonread cfg st k objs sd = (st', o) -> cf st st' /\ s_queue st' = s_queue st.
+Proof.
+  unfold send_nonread. destruct (fits cfg objs); intros H; [injection H as <- _; repeat split|].
+  destruct (nr_error _ _ _ _) as [st2 o2] eqn:E. injection H as <- _. apply nr_error_frame in E.
+  destruct E as (F1 & F2 & F3 & F4 & F5 & F6 & F7 & F8). repeat split; assumption.
+Qed.
+
+Lemma send_nonread_run cfg st k objs sd st' o :
+  send_nonread cfg st k objs sd = (st', o) ->
+  s_run st' = RNone \/ s_run st' = RNonRead k (s_seq st) (s_now st + c_timeout cfg) sd.
+Proof.
+  unfold send_nonread. destruct (fits cfg objs); intros H; [injection H as <- _; right; reflexivity|].
+  destruct (nr_error _ _ _ _) as [st2 o2]. injection H as <- _. left. reflexivity.
+Qed.
+
+Lemma start_read_cf cfg st k objs st' o :
+  start_read cfg st k objs = (st', o) -> cf st st' /\ s_queue st' = s_queue st /\
+  (s_run st' = RNone \/ s_run st' = RRead k (s_seq st) true (s_now st + c_timeout cfg) (s_now st)).
+Proof.
+  unfold start_read. destruct (fits cfg objs); intros H; [injection H as <- _; repeat split; right; reflexivity|].
+  destruct (rd_error _ _ _ _) as [st2 o2] eqn:E. injection H as <- _. apply rd_error_frame in E.
+  destruct E as (F1 & F2 & F3 & F4 & F5 & F6 & F7 & F8). repeat split; try assumption. left. reflexivity.
+Qed.
+
+Section Timing.
+Variable cfg : mcfg.
+Hypothesis Htimeout : 1 <= c_timeout cfg.
+
+Lemma J_of_parts st : run_ok cfg st -> (s_conn st = false -> s_queue st = []) -> (s_assoc st = false -> s_queue st = []) -> J cfg st.
+Proof. intros. repeat split; assumption. Qed.
+
+Lemma send_nonread_J st k objs sd st' o :
+  J cfg st -> s_conn st = true -> sd <= s_now st -> s_now st + c_timeout cfg <= sd + nr_steps k * c_timeout cfg ->
+  send_nonread cfg st k objs sd = (st', o) -> J cfg st'.
+Proof.
+  intros (_ & Hq1 & Hq2) Hc Hsd Hb H. destruct (send_nonread_cf _ _ _ _ _ _ _ H) as ((Fn & Fc & Fa) & Fq).
+  apply J_of_parts; [|rewrite Fc, Fq; exact Hq1|rewrite Fa, Fq; exact Hq2].
+  unfold run_ok. destruct (send_nonread_run _ _ _ _ _ _ _ H) as [->| ->]; [exact I|].
+  rewrite Fc, Fn. repeat split; try assumption. lia.
+Qed.
+
+Lemma start_nonread_J st k objs st' o :
+  J cfg st -> s_conn st = true -> nr_steps k = 1 -> start_nonread cfg st k objs = (st', o) -> J cfg st'.
+Proof.
+  unfold start_nonread. intros HJ Hc Hk. destruct (send_nonread _ _ _ _ _) as [st1 o1] eqn:E. intros H. injection H as <- _.
+  eapply (send_nonread_J st k objs (s_now st)); [exact HJ|exact Hc|lia| |exact E]. rewrite Hk. lia.
+Qed.
+
+Lemma start_read_J st k objs st' o : J cfg st -> s_conn st = true -> start_read cfg st k objs = (st', o) -> J cfg st'.
+Proof.
+  intros (_ & Hq1 & Hq2) Hc H. destruct (start_read_cf _ _ _ _ _ _ H) as ((Fn & Fc & Fa) & Fq & Hr).
+  apply J_of_parts; [|rewrite Fc, Fq; exact Hq1|rewrite Fa, Fq; exact Hq2].
+  unfold run_ok. destruct Hr as [->| ->]; [exact I|]. rewrite Fc, Fn. repeat split; try assumption; lia.
+Qed.
+
+Lemma start_user_J st t u st' o : J cfg st -> s_conn st = true -> start_user cfg st t u = (st', o) -> J cfg st'.
+Proof.
+  unfold start_user. intros HJ Hc. destruct u as [objs|sbo hs|hs|fc objs|cold|]; intros H.
+  - eapply start_read_J; eauto.
+  - eapply start_nonread_J; [exact HJ|exact Hc| |exact H]. destruct sbo; reflexivity.
+  - eapply start_nonread_J; [exact HJ|exact Hc| |exact H]. reflexivity.
+  - eapply start_nonread_J; [exact HJ|exact Hc| |exact H]. reflexivity.
+  - eapply start_nonread_J; [exact HJ|exact Hc| |exact H]. reflexivity.
+  - injection H as <- _. destruct HJ as (_ & Hq1 & Hq2). apply J_of_parts; [|exact Hq1|exact Hq2].
+    unfold run_ok. cbn [s_run set_run s_conn s_now]. repeat split; try assumption; lia.
+Qed.
+
+Lemma next_task_assoc st t u : next_task cfg st = NxUser t u -> s_assoc st = true.
+Proof. unfold next_task. destruct (s_assoc st); [reflexivity|discriminate]. Qed.
+
+Lemma pump_J fuel : forall st st' o, J cfg st -> pump fuel cfg st = (st', o) -> J cfg st'.
+Proof.
+  induction fuel as [|f IH]; intros st st' o HJ H; cbn [pump] in H; [injection H as <- _; exact HJ|].
+  destruct (s_conn st) eqn:Hc; cbn [negb] in H; [|injection H as <- _; exact HJ].
+  destruct (s_run st) eqn:Hr; try (injection H as <- _; exact HJ).
+  destruct (next_task cfg st) as [|t|t u|a|] eqn:Hn; try (injection H as <- _; exact HJ).
+  - destruct (start_user _ _ _ _) as [st1 o1] eqn:E1. destruct (pump f cfg st1) as [st2 o2] eqn:E2.
+    injection H as <- _. eapply IH; [|exact E2].
+    eapply (start_user_J (set_queue st (tl (s_queue st)))); [|exact Hc|exact E1].
+    destruct HJ as (Hok & Hq1 & Hq2). apply J_of_parts.
+    + unfold run_ok in *. cbn [s_run set_queue]. rewrite Hr. exact I.
+    + cbn [s_conn set_queue]. rewrite Hc. discriminate.
+    + cbn [s_assoc set_queue]. rewrite (next_task_assoc _ _ _ Hn). discriminate.
+  - destruct (start_nonread _ _ _ _) as [st1 o1] eqn:E1. destruct (pump f cfg st1) as [st2 o2] eqn:E2.
+    injection H as <- _. eapply IH; [|exact E2].
+    eapply (start_nonread_J st (NRAuto a)); [exact HJ|exact Hc|reflexivity|exact E1].
+  - destruct (start_read _ _ _ _) as [st1 o1] eqn:E1. destruct (pump f cfg st1) as [st2 o2] eqn:E2.
+    injection H as <- _. eapply IH; [|exact E2]. eapply start_read_J; [exact HJ|exact Hc|exact E1].
+Qed.
+
+Lemma fail_running_J st e st' o : J cfg st -> fail_running cfg st e = (st', o) -> J cfg st'.
+Proof.
+  intros (_ & Hq1 & Hq2) H. destruct (fail_running_idle _ _ _ _ _ H) as [Hr _].
+  destruct (fail_running_frame _ _ _ _ _ H) as (_ & Fc & _ & _ & _ & Fa & Fq & _).
+  apply J_of_parts; [unfold run_ok; rewrite Hr; exact I|rewrite Fc, Fq; exact Hq1|rewrite Fa, Fq; exact Hq2].
+Qed.
+
+Lemma then_pump_J st1 o1 st' o : J cfg st1 -> then_pump cfg (st1, o1) = (st', o) -> J cfg st'.
+Proof.
+  unfold then_pump, run_pump. destruct (pump _ cfg st1) as [st2 o2] eqn:E. intros HJ H. injection H as <- _.
+  eapply pump_J; eauto.
+Qed.
+
+
+Lemma process_iin_cf st i : cf st (process_iin st i) /\ s_queue (process_iin st i) = s_queue st /\ s_run (process_iin st i) = s_run st.
+Proof. unfold process_iin. destruct (iin1_restart i); [destruct (s_clear st)|]; repeat split. Qed.
+
+Lemma J_transfer st st' :
+  cf st st' -> s_queue st' = s_queue st -> s_run st' = s_run st -> J cfg st -> J cfg st'.
+Proof.
+  intros (Fn & Fc & Fa) Fq Fr (Hok & Hq1 & Hq2).
+  apply J_of_parts; [|rewrite Fc, Fq; exact Hq1|rewrite Fa, Fq; exact Hq2].
+  unfold run_ok in *. rewrite Fr, Fc, Fn. exact Hok.
+Qed.
+
+Lemma handle_unsol_J st src h objs v items st' o :
+  J cfg st -> handle_unsol cfg st src h objs v items = (st', o) -> J cfg st'.
+Proof.
+  intros HJ. unfold handle_unsol. destruct (process_iin_cf st (h_iin1 h)) as (F1 & F2 & F3).
+  assert (HJ1 : J cfg (process_iin st (h_iin1 h))) by (eapply J_transfer; eauto).
+  destruct (_ && s_assoc st); [|intros H; injection H as <- _; exact HJ].
+  destruct (_ || _); [|intros H; injection H as <- _; exact HJ1].
+  destruct v; try (intros H; injection H as <- _; exact HJ1).
+  destruct (match s_last_unsol _ with Some _ => _ | None => _ end); intros H; injection H as <- _;
+    (eapply J_transfer; [| | |exact HJ1]; [repeat split; cbn; congruence|reflexivity|reflexivity]).
+Qed.
+
+Lemma J_idle st st' :
+  cf st st' -> s_queue st' = s_queue st -> s_run st' = RNone -> J cfg st -> J cfg st'.
+Proof.
+  intros (Fn & Fc & Fa) Fq Fr (_ & Hq1 & Hq2).
+  apply J_of_parts; [unfold run_ok; rewrite Fr; exact I|rewrite Fc, Fq; exact Hq1|rewrite Fa, Fq; exact Hq2].
+Qed.
+
+Lemma handle_nonread_response_J st k q dl sd h objs v st' o :
+  J cfg st -> s_run st = RNonRead k q dl sd -> handle_nonread_response cfg st k q sd h objs v = (st', o) -> J cfg st'.
+Proof.
+  intros HJ Hr. unfold handle_nonread_response, nr_success, nr_failed.
+  assert (Hidle : forall st1, cf st st1 -> s_queue st1 = s_queue st -> J cfg (set_run st1 RNone)).
+  { intros st1 Hcf Hq. eapply (J_idle st); [| | |exact HJ]; [exact Hcf|exact Hq|reflexivity]. }
+  destruct k as [t ph hs|t|t fc|t cold|a].
+  - destruct v; try (intros H; injection H as <- _; apply Hidle; [apply cf_refl|reflexivity]).
+    destruct (compare hs objs); [|intros H; injection H as <- _; apply Hidle; [apply cf_refl|reflexivity]].
+    destruct ph; try (intros H; injection H as <- _; apply Hidle; [apply cf_refl|reflexivity]).
+    intros H. destruct HJ as (Hok & Hq1 & Hq2). pose proof Hok as Hok'. unfold run_ok in Hok'. rewrite Hr in Hok'.
+    destruct Hok' as (Hc & Hsd & Hlt & Hdl). cbn [nr_steps] in Hdl.
+    eapply (send_nonread_J st (NRCommand t PhOperate hs)); [repeat split; assumption|exact Hc|exact Hsd| |exact H].
+    cbn [nr_steps]. lia.
+  - destruct objs; intros H; injection H as <- _; apply Hidle; try apply cf_refl; reflexivity.
+  - destruct objs; intros H; injection H as <- _; apply Hidle; try apply cf_refl; reflexivity.
+  - destruct v; try (intros H; injection H as <- _; apply Hidle; [apply cf_refl|reflexivity]).
+    destruct (restart_delay objs); intros H; injection H as <- _; apply Hidle; try apply cf_refl; reflexivity.
+  - intros H; injection H as <- _. apply Hidle; [apply frame_cf, auto_response_frame|apply auto_response_frame].
+Qed.
+
+Lemma on_nonread_rx_J st k q dl sd src h objs v items st' o :
+  J cfg st -> s_run st = RNonRead k q dl sd -> on_nonread_rx cfg st k q dl sd src h objs v items = (st', o) -> J cfg st'.
+Proof.
+  intros HJ Hr. unfold on_nonread_rx.
+  destruct (h_unsol h); [apply handle_unsol_J; exact HJ|].
+  destruct (negb (src =? c_addr cfg)); [intros H; injection H as <- _; exact HJ|].
+  destruct (negb (c_seq (h_ctrl h) =? q)); [intros H; injection H as <- _; exact HJ|].
+  destruct (negb (_ && _)); [apply fail_running_J; exact HJ|].
+  destruct (iin2_bad _); [apply fail_running_J; exact HJ|].
+  destruct (process_iin_cf st (h_iin1 h)) as (F1 & F2 & F3).
+  destruct (s_assoc st).
+  - destruct (handle_nonread_response _ _ _ _ _ _ _ _) as [st1 o1] eqn:E. intros H. injection H as <- _.
+    eapply handle_nonread_response_J; [|rewrite F3; exact Hr|exact E]. eapply J_transfer; eauto.
+  - destruct (nr_error _ _ _ _) as [st1 o1] eqn:E. intros H. injection H as <- _. apply nr_error_frame in E.
+    eapply (J_idle st); [| | |exact HJ]; [apply frame_cf in E; exact E
+                                          |apply E|reflexivity].
+Qed.
+
+Lemma on_read_rx_J st k q first dl sd src h objs v items st' o :
+  J cfg st -> s_run st = RRead k q first dl sd -> on_read_rx cfg st k q first dl sd src h objs v items = (st', o) -> J cfg st'.
+Proof.
+  intros HJ Hr. unfold on_read_rx.
+  destruct (h_unsol h); [apply handle_unsol_J; exact HJ|].
+  destruct (negb (src =? c_addr cfg)); [intros H; injection H as <- _; exact HJ|].
+  destruct (negb (c_seq (h_ctrl h) =? q)); [intros H; injection H as <- _; exact HJ|].
+  destruct (_ && negb first); [apply fail_running_J; exact HJ|].
+  destruct (negb _ && first); [apply fail_running_J; exact HJ|].
+  destruct (negb _ && negb _); [apply fail_running_J; exact HJ|].
+  destruct (iin2_bad _); [apply fail_running_J; exact HJ|].
+  destruct (negb (s_assoc st)); [apply fail_running_J; exact HJ|].
+  destruct (process_iin_cf st (h_iin1 h)) as (F1 & F2 & F3).
+  assert (HJ1 : J cfg (process_iin st (h_iin1 h))) by (eapply J_transfer; eauto).
+  destruct v; try (apply fail_running_J; exact HJ1).
+  destruct (c_fin _).
+  - destruct k as [t|]; intros H; injection H as <- _;
+      (eapply (J_idle (process_iin st (h_iin1 h))); [| | |exact HJ1]; [repeat split; cbn; congruence|reflexivity|reflexivity]).
+  - intros H; injection H as <- _. destruct HJ1 as (Hok & Hq1 & Hq2). apply J_of_parts; [|exact Hq1|exact Hq2].
+    unfold run_ok in *. rewrite F3, Hr in Hok. destruct Hok as (Hc & _). cbn [s_run set_run set_seq s_conn s_now].
+    destruct F1 as (Fn & _). rewrite Fn in *. repeat split; try assumption; lia.
+Qed.
+
+Lemma on_rx_J st src frag v items st' o : J cfg st -> on_rx cfg st src frag v items = (st', o) -> J cfg st'.
+Proof.
+  intros HJ. unfold on_rx. destruct (negb (s_conn st)); [intros H; injection H as <- _; exact HJ|].
+  destruct (parse_response frag) as [|h objs].
+  - destruct (s_run st); try (apply fail_running_J; exact HJ). intros H; injection H as <- _; exact HJ.
+  - destruct (s_run st) as [|k q dl sd|k q first dl sd|tk dl] eqn:Hr.
+    + destruct (h_unsol h); [apply handle_unsol_J; exact HJ|intros H; injection H as <- _; exact HJ].
+    + apply on_nonread_rx_J; assumption.
+    + apply on_read_rx_J; assumption.
+    + destruct (if h_unsol h then _ else _) as [st1 o1] eqn:E1. destruct (fail_running cfg st1 EBadHeaders) as [st2 o2] eqn:E2.
+      intros H. injection H as <- _. eapply fail_running_J; [|exact E2].
+      destruct (h_unsol h); [eapply handle_unsol_J; eauto|injection E1 as <- _; exact HJ].
+Qed.
+
+Lemma stop_run_J st why st' o : J cfg st -> stop_run cfg st why = (st', o) -> J cfg st' /\ s_conn st' = false.
+Proof.
+  intros HJ. unfold stop_run. destruct (fail_running _ _ _) as [st1 o1] eqn:E1.
+  pose proof (fail_running_J _ _ _ _ HJ E1) as (Hok1 & Hq1 & Hq2). pose proof (fail_running_idle _ _ _ _ _ E1) as [Hidle _].
+  destruct (s_assoc st1) eqn:Ha.
+  - unfold reset_assoc. intros H. injection H as <- _. split; [|reflexivity].
+    apply J_of_parts; [unfold run_ok; cbn [s_run set_chan set_last_unsol set_autos set_queue]; rewrite Hidle; exact I| |]; reflexivity.
+  - intros H. injection H as <- _. split; [|reflexivity]. specialize (Hq2 eq_refl).
+    apply J_of_parts; [unfold run_ok; cbn [s_run set_chan]; rewrite Hidle; exact I| |]; intros _; exact Hq2.
+Qed.
+
+Lemma J_not_conn_idle st : J cfg st -> s_conn st = false -> s_run st = RNone.
+Proof.
+  intros (Hok & _) Hc. unfold run_ok in Hok. destruct (s_run st); try reflexivity; destruct Hok as (Hc' & _); congruence.
+Qed.
+
+Lemma on_event_J st ev st' o : J cfg st -> on_event cfg st ev = (st', o) -> J cfg st'.
+Proof.
+  intros HJ. destruct ev as [src frag v items|ms|t u| | | | | |]; cbn [on_event]; intros H.
+  - destruct (on_rx _ _ _ _ _ _) as [st1 o1] eqn:E. injection H as <- _. eapply on_rx_J; eauto.
+  - injection H as <- _; exact HJ.
+  - unfold on_user in H. destruct (s_assoc st) eqn:Ha; cbn [negb] in H; [|injection H as <- _; exact HJ].
+    destruct (s_conn st) eqn:Hc; cbn [negb] in H; [|injection H as <- _; exact HJ].
+    destruct (_ <? _)%nat; injection H as <- _; [|exact HJ].
+    destruct HJ as (Hok & _ & _). apply J_of_parts; [exact Hok| |]; cbn [s_conn s_assoc set_queue]; congruence.
+  - destruct (s_conn st) eqn:Hc.
+    + assert (HJ0 : J cfg (set_chan st true false (s_linkup st) (s_stopped st))).
+      { eapply J_transfer; [| | |exact HJ]; [repeat split; cbn; congruence|reflexivity|reflexivity]. }
+      exact (proj1 (stop_run_J _ _ _ _ HJ0 H)).
+    + injection H as <- _. eapply J_transfer; [| | |exact HJ]; [repeat split; cbn; congruence|reflexivity|reflexivity].
+  - destruct (s_conn st) eqn:Hc.
+    + injection H as <- _. eapply J_transfer; [| | |exact HJ]; [repeat split; cbn; congruence|reflexivity|reflexivity].
+    + unfold try_connect in H. destruct (_ && _); injection H as <- _.
+      * pose proof (J_not_conn_idle _ HJ Hc) as Hr. destruct HJ as (_ & Hq1 & Hq2).
+        apply J_of_parts; [unfold run_ok; cbn [s_run set_chan]; rewrite Hr; exact I|discriminate|exact Hq2].
+      * eapply J_transfer; [| | |exact HJ]; [repeat split; cbn; congruence|reflexivity|reflexivity].
+  - destruct (s_conn st) eqn:Hc.
+    + exact (proj1 (stop_run_J _ _ _ _ HJ H)).
+    + injection H as <- _. eapply J_transfer; [| | |exact HJ]; [repeat split; cbn; congruence|reflexivity|reflexivity].
+  - unfold try_connect in H. destruct (_ && _) eqn:Hcond; injection H as <- _.
+    + cbn [s_conn set_chan] in Hcond. destruct (s_conn st) eqn:Hc; [discriminate|].
+      pose proof (J_not_conn_idle _ HJ Hc) as Hr. destruct HJ as (_ & Hq1 & Hq2).
+      apply J_of_parts; [unfold run_ok; cbn [s_run set_chan]; rewrite Hr; exact I|discriminate|exact Hq2].
+    + eapply J_transfer; [| | |exact HJ]; [repeat split; cbn; congruence|reflexivity|reflexivity].
+  - injection H as <- _. destruct HJ as (Hok & _ & _). apply J_of_parts; [exact Hok| |]; reflexivity.
+  - destruct (s_conn st) eqn:Hc.
+    + destruct (stop_run cfg st StShutdown) as [st1 o1] eqn:E. injection H as <- _.
+      destruct (stop_run_J _ _ _ _ HJ E) as [HJ1 Hc1]. eapply J_transfer; [| | |exact HJ1]; [repeat split; cbn; congruence|reflexivity|reflexivity].
+    + injection H as <- _. eapply J_transfer; [| | |exact HJ]; [repeat split; cbn; congruence|reflexivity|reflexivity].
+Qed.
+
+Lemma start_nonread_cf st k objs st' o : start_nonread cfg st k objs = (st', o) -> cf st st'.
+Proof.
+  unfold start_nonread. destruct (send_nonread _ _ _ _ _) as [st1 o1] eqn:E. intros H. injection H as <- _.
+  eapply send_nonread_cf; eauto.
+Qed.
+Lemma start_user_cf st t u st' o : start_user cfg st t u = (st', o) -> cf st st'.
+Proof.
+  unfold start_user. destruct u; intros H; try (eapply start_nonread_cf; eassumption).
+  - eapply start_read_cf; eauto.
+  - injection H as <- _. repeat split.
+Qed.
+Lemma pump_cf fuel : forall st st' o, pump fuel cfg st = (st', o) -> cf st st'.
+Proof.
+  induction fuel as [|f IH]; intros st st' o H; cbn [pump] in H; [injection H as <- _; apply cf_refl|].
+  destruct (negb (s_conn st)); [injection H as <- _; apply cf_refl|].
+  destruct (s_run st); try (injection H as <- _; apply cf_refl).
+  destruct (next_task cfg st) as [|t|t u|a|]; try (injection H as <- _; apply cf_refl).
+  - destruct (start_user _ _ _ _) as [st1 o1] eqn:E1. destruct (pump f cfg st1) as [st2 o2] eqn:E2.
+    injection H as <- _. eapply cf_trans; [|eapply IH; eauto]. apply start_user_cf in E1. exact E1.
+  - destruct (start_nonread _ _ _ _) as [st1 o1] eqn:E1. destruct (pump f cfg st1) as [st2 o2] eqn:E2.
+    injection H as <- _. eapply cf_trans; [eapply start_nonread_cf; eauto|eapply IH; eauto].
+  - destruct (start_read _ _ _ _) as [st1 o1] eqn:E1. destruct (pump f cfg st1) as [st2 o2] eqn:E2.
+    injection H as <- _. eapply cf_trans; [eapply start_read_cf; eauto|eapply IH; eauto].
+Qed.
+
+Lemma auto_next_notbefore a now task t : (forall x, task <> NxNotBefore x) -> auto_next a now task = Some (NxNotBefore t) -> now < t.
+Proof.
+  intros Ht. unfold auto_next. destruct a as [| |l nx]; try discriminate.
+  - intros H. injection H as H. exfalso. eapply Ht; eauto.
+  - destruct (nx <=? now) eqn:E; intros H; injection H as H; [exfalso; eapply Ht; eauto|].
+    subst nx. apply N.leb_gt in E. exact E.
+Qed.
+
+Lemma next_task_notbefore st t : next_task cfg st = NxNotBefore t -> s_now st < t.
+Proof.
+  unfold next_task. destruct (negb (s_assoc st)); [discriminate|].
+  destruct (s_queue st) as [|[t' u'] r]; [|discriminate].
+  destruct (auto_next (s_clear st) _ _) as [n|] eqn:E0.
+  { intros ->. eapply auto_next_notbefore; [|exact E0]. discriminate. }
+  destruct (if c_disable cfg =? 0 then None else _) as [n|] eqn:E1.
+  { intros ->. destruct (c_disable cfg =? 0); [discriminate|]. eapply auto_next_notbefore; [|exact E1]. discriminate. }
+  destruct (if c_integrity cfg =? 0 then None else _) as [n|] eqn:E2.
+  { intros ->. destruct (c_integrity cfg =? 0); [discriminate|]. eapply auto_next_notbefore; [|exact E2]. discriminate. }
+  destruct (if c_enable cfg =? 0 then None else _) as [n|] eqn:E3; [|discriminate].
+  intros ->. destruct (c_enable cfg =? 0); [discriminate|]. eapply auto_next_notbefore; [|exact E3]. discriminate.
+Qed.
+
+(* every armed deadline lies strictly in the future *)
+Lemma wake_guard st d : J cfg st -> wake_time cfg st = Some d -> s_now st < d.
+Proof.
+  intros (Hok & _) Hw. unfold wake_time in Hw. destruct (s_conn st); [|discriminate]. unfold run_ok in Hok.
+  destruct (s_run st) as [|k q dl sd|k q f dl sd|tk dl].
+  - destruct (next_task cfg st) eqn:Hn; try discriminate. injection Hw as <-. apply next_task_notbefore. exact Hn.
+  - injection Hw as <-. tauto.
+  - injection Hw as <-. tauto.
+  - injection Hw as <-. tauto.
+Qed.
+
+Lemma fire_J st d st' o :
+  J cfg st -> s_now st <= d -> fire cfg (set_now st d) = (st', o) -> J cfg st' /\ s_now st' = d.
+Proof.
+  intros (Hok & Hq1 & Hq2) Hd. unfold fire. cbn [s_run set_now].
+  destruct (s_run st) eqn:Hr.
+  - intros H. split; [|apply pump_cf in H; destruct H as (Hn & _); exact Hn].
+    eapply pump_J; [|exact H]. apply J_of_parts; [unfold run_ok; cbn [s_run set_now]; rewrite Hr; exact I|exact Hq1|exact Hq2].
+  - destruct (fail_running cfg (set_now st d) ETimeout) as [st1 o1] eqn:E. intros H.
+    assert (HJ1 : J cfg st1).
+    { destruct (fail_running_idle _ _ _ _ _ E) as [Hi _]. destruct (fail_running_frame _ _ _ _ _ E) as (_ & Fc & _ & _ & _ & Fa & Fq & _).
+      apply J_of_parts; [unfold run_ok; rewrite Hi; exact I|rewrite Fc, Fq; exact Hq1|rewrite Fa, Fq; exact Hq2]. }
+    split; [eapply then_pump_J; eauto|]. unfold then_pump, run_pump in H. destruct (pump _ cfg st1) as [st2 o2] eqn:E2.
+    injection H as <- _. apply pump_cf in E2. destruct E2 as (Hn & _). rewrite Hn.
+    destruct (fail_running_frame _ _ _ _ _ E) as (Fn & _). exact Fn.
+  - destruct (fail_running cfg (set_now st d) ETimeout) as [st1 o1] eqn:E. intros H.
+    assert (HJ1 : J cfg st1).
+    { destruct (fail_running_idle _ _ _ _ _ E) as [Hi _]. destruct (fail_running_frame _ _ _ _ _ E) as (_ & Fc & _ & _ & _ & Fa & Fq & _).
+      apply J_of_parts; [unfold run_ok; rewrite Hi; exact I|rewrite Fc, Fq; exact Hq1|rewrite Fa, Fq; exact Hq2]. }
+    split; [eapply then_pump_J; eauto|]. unfold then_pump, run_pump in H. destruct (pump _ cfg st1) as [st2 o2] eqn:E2.
+    injection H as <- _. apply pump_cf in E2. destruct E2 as (Hn & _). rewrite Hn.
+    destruct (fail_running_frame _ _ _ _ _ E) as (Fn & _). exact Fn.
+  - destruct (fail_running cfg (set_now st d) ETimeout) as [st1 o1] eqn:E. intros H.
+    assert (HJ1 : J cfg st1).
+    { destruct (fail_running_idle _ _ _ _ _ E) as [Hi _]. destruct (fail_running_frame _ _ _ _ _ E) as (_ & Fc & _ & _ & _ & Fa & Fq & _).
+      apply J_of_parts; [unfold run_ok; rewrite Hi; exact I|rewrite Fc, Fq; exact Hq1|rewrite Fa, Fq; exact Hq2]. }
+    split; [eapply then_pump_J; eauto|]. unfold then_pump, run_pump in H. destruct (pump _ cfg st1) as [st2 o2] eqn:E2.
+    injection H as <- _. apply pump_cf in E2. destruct E2 as (Hn & _). rewrite Hn.
+    destruct (fail_running_frame _ _ _ _ _ E) as (Fn & _). exact Fn.
+Qed.
+
+Lemma set_now_J st t : J cfg st -> s_now st <= t -> (forall d, wake_time cfg st = Some d -> t < d) -> J cfg (set_now st t).
+Proof.
+  intros (Hok & Hq1 & Hq2) Ht Hw. apply J_of_parts; [|exact Hq1|exact Hq2].
+  unfold run_ok in *. cbn [s_run set_now s_conn s_now]. unfold wake_time in Hw.
+  destruct (s_run st) as [|k q dl sd|k q f dl sd|tk dl]; [exact I| | |];
+    destruct Hok as (Hc & Hrest); rewrite Hc in Hw; specialize (Hw _ eq_refl); repeat split; try tauto; lia.
+Qed.
+
+(* with enough fuel the clock reaches the target and every deadline on the way has fired *)
+Lemma advance_J fuel : forall st target st' o,
+  J cfg st -> (N.to_nat (target - s_now st) < fuel)%nat -> advance fuel cfg st target = (st', o) ->
+  J cfg st' /\ s_now st' = N.max (s_now st) target.
+Proof.
+  induction fuel as [|f IH]; intros st target st' o HJ Hf H; [lia|]. cbn [advance] in H.
+  destruct (wake_time cfg st) as [d|] eqn:Hw.
+  - pose proof (wake_guard _ _ HJ Hw) as Hg.
+    destruct (d <=? target) eqn:Hle.
+    + apply N.leb_le in Hle. replace (N.max (s_now st) d) with d in H by lia.
+      destruct (fire cfg (set_now st d)) as [st1 o1] eqn:E1. destruct (advance f cfg st1 target) as [st2 o2] eqn:E2.
+      injection H as <- _. destruct (fire_J st d st1 o1 HJ (N.lt_le_incl _ _ Hg) E1) as [HJ1 Hn1].
+      assert (Hf1 : (N.to_nat (target - s_now st1) < f)%nat) by (rewrite Hn1; lia).
+      destruct (IH st1 target st2 o2 HJ1 Hf1 E2) as [HJ2 Hn2]. split; [exact HJ2|]. rewrite Hn2, Hn1. lia.
+    + apply N.leb_gt in Hle. injection H as <- _. split; [|reflexivity].
+      apply set_now_J; [exact HJ|lia|]. intros d' Hd'. rewrite Hw in Hd'. injection Hd' as <-. lia.
+  - injection H as <- _. split; [|reflexivity]. apply set_now_J; [exact HJ|lia|]. intros d' Hd'. rewrite Hw in Hd'. discriminate.
+Qed.
+
+Lemma mstep_J st ev : J cfg st -> J cfg (fst (mstep cfg st ev)).
+Proof.
+  intros HJ. unfold mstep. destruct (s_stopped st); [exact HJ|].
+  destruct (on_event cfg st ev) as [st0 o0] eqn:E0. destruct (then_pump cfg (st0, o0)) as [st1 o1] eqn:E1.
+  destruct (advance _ cfg st1 _) as [st2 o2] eqn:E2. cbn [fst].
+  eapply advance_J; [|
+    |exact E2]; [eapply then_pump_J; [|exact E1]; eapply on_event_J; eauto|].
+  replace (s_now st1 + span_of ev - s_now st1) with (span_of ev) by lia. lia.
+Qed.
+
+Lemma minit_J : J cfg (fst (minit cfg)).
+Proof.
+  unfold minit. destruct (run_pump cfg _) as [st1 o1] eqn:E1. destruct (advance 2 cfg st1 1) as [st2 o2] eqn:E2. cbn [fst].
+  assert (HJ1 : J cfg st1).
+  { eapply pump_J; [|exact E1]. apply J_of_parts; [exact I|discriminate|discriminate]. }
+  eapply advance_J; [exact HJ1| |exact E2]. apply pump_cf in E1. destruct E1 as (Hn & _). rewrite Hn. cbn. lia.
+Qed.
+
+End Timing.
+
+(* C16.5 bounded_steps.  In every state a run can reach (response timeout at least 1 ms): a task is
+   waited for only while connected, the deadline of the outstanding task lies strictly in the
+   future, and it is at most [nr_steps] response timeouts after the task was started - one for a
+   single request/response, two for select-before-operate - and, for a READ and a link status
+   check, at most one response timeout after the present (after the last accepted fragment).
+   Together with [timeout_is_error] (when the deadline passes the task fails at that instant)
+   no request is outstanding for longer than its protocol steps allow. *)
+Theorem bounded_steps : forall cfg evs k,
+  1 <= c_timeout cfg -> J cfg (state_at cfg evs k).
+Proof.
+  intros cfg evs k Ht. unfold state_at, final.
+  generalize (firstn k evs). intros l. pose proof (minit_J cfg Ht) as H0. revert H0.
+  generalize (fst (minit cfg)). induction l as [|ev l IH]; intros st HJ; cbn [final_from]; [exact HJ|].
+  apply IH. apply mstep_J; assumption.
+Qed.
